@@ -13,6 +13,9 @@ of a memory mapper is the corresponding field of `m`):
                                                    statements and the test of the `if page < 0` guard
   Tandy6MemoryMapper.get_memory                 -> vmem_tandy6_first / vmem_tandy6_half_len
   machine.Memory._get_memory_block              -> vmem_video_len
+  machine.Memory.bload_                         -> vmem_bload_glue / vmem_bload_addr: segment and offset taken from
+                                                   the file header resp. the statement (`offset is None` is the
+                                                   boolean parameter offset_is_none), and the load address
 Dumped by importing display/modes.py in the checked tree (every entry of _MODE_INFO is instantiated the way
 modes.get_mode does and the attributes of its memory mapper are read back): vmode_<name> and vmem_mode_table.
 Anything else in these functions is refused.
@@ -165,6 +168,15 @@ class VmemTranslator(Translator):
             return 'let %s := (%s ++ [%s]) in\n%s' % (v, env[YIELD][0], term, self.block(rest, env2, ctx, k))
         return None
 
+    def hook_expr(self, node, env):
+        # `name is None` for an optional int that is modelled as (value, <name>_is_none)
+        if (isinstance(node, ast.Compare) and len(node.ops) == 1 and isinstance(node.ops[0], (ast.Is, ast.IsNot))
+                and isinstance(node.left, ast.Name) and isinstance(node.comparators[0], ast.Constant)
+                and node.comparators[0].value is None and node.left.id + '_is_none' in env):
+            term, ty = env[node.left.id + '_is_none']
+            return (term, ty) if isinstance(node.ops[0], ast.Is) else ('(negb %s)' % term, ty)
+        return None
+
     def hook_call(self, node, env):
         fname = self.dotted(node.func) if isinstance(node.func, (ast.Attribute, ast.Name)) else None
         if fname in ('min', 'max') and len(node.args) > 2 and not node.keywords:
@@ -240,6 +252,13 @@ def generate(repo):
     for fn in ('get', 'set'):
         t2.function('Memory._%s_memory_block' % fn, coqname='vmem_%s_video_len' % fn, param_types={'addr': 'Z'},
                     stmts=(r'^video_len = ', r'^video_len = '), ret=['video_len'])
+    # ---- machine.py: where BLOAD puts the block
+    t3 = VmemTranslator(m2, prefix='vmem_')
+    t3.function('Memory.bload_', coqname='vmem_bload_glue',
+                param_types={'g.seg': 'Z', 'g.offset': 'Z', 'offset': 'Z', 'offset_is_none': 'bool'},
+                stmts=(r'^seg = g\.seg$', r'^if offset is None:$'), ret=['seg', 'offset'])
+    t3.function('Memory.bload_', coqname='vmem_bload_addr', param_types={'seg': 'Z', 'offset': 'Z'},
+                stmts=(r'^addr = seg \* 0x10 \+ offset$', r'^addr = seg \* 0x10 \+ offset$'), ret=['addr'])
     # ---- output
     out = [HEADER.rstrip('\n')]
     out.append('(* attributes of a memory mapper object; vm_width/vm_height are pixels (graphics) or cells (text);\n'
@@ -250,6 +269,7 @@ def generate(repo):
     out.append(body)
     out.append('End Mapper.')
     out.append('\n'.join(t2.out))
+    out.append('\n'.join(t3.out))
     names = []
     for d in table['modes']:
         if d['class'] not in KINDS:
